@@ -326,8 +326,13 @@ func innerFrames(st string) string {
 	return strings.Join(fr, "<")
 }
 
+var scratchSeq int
+
+// freshScratch returns a directory whose path was never used before in this
+// process: the code under test keeps process-global caches keyed by file path.
 func freshScratch(base string, tag string) string {
-	d := filepath.Join(base, tag)
+	scratchSeq++
+	d := filepath.Join(base, fmt.Sprintf("%s-%d", tag, scratchSeq))
 	_ = os.RemoveAll(d)
 	if err := os.MkdirAll(d, 0o755); err != nil {
 		panic(err)
